@@ -153,8 +153,15 @@ def _acyclic(g):
     return True
 
 
+def scenario_cases():
+    """an input does not outlive the redefinition of its cells (exec_props.input_then_redefined_cases): the element
+    recomputed after the redefinition is an ordinary computed element - its predecessors are the calls it made, and
+    it is not an input (an input has no predecessors)"""
+    return X.input_then_redefined_cases({"reeval": lambda R: [], "clear": lambda R: [["clear", "0"]]})
+
+
 def run(ctx, out):
-    X.run_family(ctx, out, CFG, oracle, 150, 2500)
+    X.run_family(ctx, out, CFG, oracle, 150, 2500, structured=scenario_cases())
     out.assumptions.append("get_valuerefs (by-name references from bytecode) is exercised through precedents() only "
                            "for attribute-path reads; by-name value references are not compared")
 
